@@ -187,17 +187,30 @@ func ruleLatestProtected(r *Report, rule string) {
 	var latest types.Object
 	ast.Inspect(fi.Decl.Body, func(x ast.Node) bool {
 		as, ok := x.(*ast.AssignStmt)
-		if !ok || len(as.Lhs) != 1 || len(as.Rhs) != 1 {
+		if !ok || len(as.Lhs) != len(as.Rhs) {
 			return true
 		}
-		if ix, ok := ast.Unparen(as.Rhs[0]).(*ast.IndexExpr); ok && exprStr(ix.Index) == "0" {
-			sig := fi.Obj.Type().(*types.Signature)
-			if objOf(info, ix.X) == sig.Params().At(0) {
-				latest = objOf(info, as.Lhs[0])
+		for k := range as.Rhs {
+			if ix, ok := ast.Unparen(as.Rhs[k]).(*ast.IndexExpr); ok && exprStr(ix.Index) == "0" {
+				sig := fi.Obj.Type().(*types.Signature)
+				if objOf(info, ix.X) == sig.Params().At(0) {
+					latest = objOf(info, as.Lhs[k])
+				}
 			}
 		}
 		return true
 	})
+	isLatest := func(e ast.Expr) bool {
+		e = ast.Unparen(e)
+		if latest != nil && objOf(info, e) == latest {
+			return true
+		}
+		if ix, ok := e.(*ast.IndexExpr); ok && exprStr(ix.Index) == "0" {
+			sig := fi.Obj.Type().(*types.Signature)
+			return objOf(info, ix.X) == sig.Params().At(0)
+		}
+		return false
+	}
 	ok := false
 	ast.Inspect(fi.Decl.Body, func(x ast.Node) bool {
 		as, isAs := x.(*ast.AssignStmt)
@@ -205,12 +218,12 @@ func ruleLatestProtected(r *Report, rule string) {
 			return true
 		}
 		ix, isIx := ast.Unparen(as.Lhs[0]).(*ast.IndexExpr)
-		if !isIx || latest == nil {
+		if !isIx {
 			return true
 		}
-		if sel, isSel := ast.Unparen(ix.Index).(*ast.SelectorExpr); isSel && sel.Sel.Name == "epoch" && objOf(info, sel.X) == latest {
+		if sel, isSel := ast.Unparen(ix.Index).(*ast.SelectorExpr); isSel && sel.Sel.Name == "epoch" && isLatest(sel.X) {
 			// only guard: "not already in the map"
-			facts := g.GuardsOf(as)
+			facts := g.RawGuardsOf(as)
 			ok = len(facts) == 1 && !facts[0].Truth
 		}
 		return true
